@@ -254,7 +254,9 @@ def make_connector(server_factory, seg_c2s=None, seg_s2c=None, kill_s2c=None, ki
         def _release(self, key, protocol, *, should_close=False):
             if not self._closed:
                 self.release_log.append({"force": bool(self._force_close), "arg": bool(should_close),
-                                         "proto": bool(protocol.should_close)})
+                                         "proto": bool(protocol.should_close),
+                                         # the peer's close was already delivered: should_close then only restates it
+                                         "lost": bool(getattr(protocol, "_connection_lost_called", False))})
             super()._release(key, protocol, should_close=should_close)
 
         async def _create_connection(self, req, traces, timeout):
